@@ -1436,9 +1436,13 @@ class _TextReader:
                     self.tok.unget(token)
                     break
                 try:
-                    self.flags = self.flags | dns.flags.from_text(token.value)
+                    flag = dns.flags.from_text(token.value)
                 except KeyError:
                     raise dns.exception.SyntaxError(f"unknown flag '{token.value}'")
+                if flag > 0xFFFF:
+                    # the generic FLAGn spelling can name bits the header does not have
+                    raise dns.exception.SyntaxError(f"flag '{token.value}' out of range")
+                self.flags = self.flags | flag
         elif what == "edns":
             self.edns = self.tok.get_int()
             self.ednsflags = self.ednsflags | (self.edns << 16)
